@@ -129,6 +129,23 @@ CHECKS['C06'] = dict(
     parallel=8,
 )
 
+CHECKS['C07'] = dict(
+    title='wait/waitFor never miss a wake-up; DisableQueueNotify only defers it',
+    level='exploration',
+    rule='generated scenarios: 1-3 waiter threads (wait, waitFor(20s), or short waitFor) that drain the queue when released, 1-2 enqueuer threads whose steps are plain enqueues or enqueues inside '
+         'DisableQueueNotify scopes nested 1-3 deep with pauses; EventQueue (std::mutex, SpinLock) and HeterEventQueue; injected Threading policy with an own condition variable that keeps an explicit '
+         'waiter list (no spurious wake-ups), schedule perturbation off/random/targeted (waiter delayed between predicate and blocking, enqueuer delayed after the counter decrement, ...), half of the '
+         'parking scenarios follow a template aimed at the window named in the statement; verdicts from state at quiescence (enqueuers joined, every waiter in the waiter list): events pending + '
+         'notification enabled => lost wake-up; wait() covered by one DisableQueueNotify lifetime must not return; waitFor false only after its timeout; wait/true only after some enqueue began; '
+         'distinct_nontrivial = distinct lock-order hashes',
+    jobs=[J('drv_wait', 'plain', '', 1600, 60000, shards=8, shards_thorough=16), J('drv_wait', 'tsan', '', 300, 6000, seed_offset=1, shards=8, shards_thorough=16)],
+    assumptions=['liveness restated as a state verdict at quiescence (DESIGN §5 C07)', 'fairness among several waiters is not checked'],
+    technique='stress with targeted schedule perturbation through injected Mutex/Atomic/ConditionVariable policies; parked-waiter state oracle; interval (tick) oracle; TSan',
+    level_text='Exploration: thousands of scenarios, each with one race window deliberately widened; the lost-wake-up verdict is read from the condition variable\'s waiter list once nobody is left to notify.',
+    level_note='Trusted: MonCV (own condition variable with std::condition_variable semantics), the tick clock (plain builds).',
+    parallel=8,
+)
+
 CHECKS['C08'] = dict(
     title='Stored callbacks and arguments are destroyed exactly once, never leaked',
     level='exploration',
@@ -176,6 +193,22 @@ CHECKS['C11'] = dict(
     parallel=8,
 )
 
+MF = [0x007, 0x038, 0x1c0, 0x600, 0x1800]
+CHECKS['C12'] = dict(
+    title='Filters and canContinueInvoking gate every dispatch, synchronous or queued',
+    level='exploration',
+    rule='13 configurations (MixinFilter on EventDispatcher/EventQueue with by-value and by-reference prototypes, two mixins in both orders, a mixin without interceptor before/after MixinFilter, '
+         'MixinHeterFilter on HeterEventDispatcher, canContinueInvoking policies on CallbackList/EventDispatcher/EventQueue, conditionalFunctor and argumentAdapter listeners incl. shared_ptr casts) x '
+         'seeded histories of filter/listener additions and removals and dispatches direct and queued (process/processOne/processIf), scripted filters that rewrite and veto, nested operations from inside '
+         'filters/listeners; every filter and listener call is compared online with the model (order, arguments as seen, stop rules); non-triviality per configuration family (a dispatch blocked at chain '
+         'position >0 or a rewrite verified downstream; a queued dispatch; a canContinue cut-off; adapter + both condition outcomes); distinct = trace hash + configuration',
+    jobs=JS('drv_filter', 'asan17', 'c12', 30000, 600000, MF, shards=3, shards_thorough=6) + JS('drv_filter', 'clang-asan17', 'deep', 8000, 200000, MF, seed_offset=1, shards=3, shards_thorough=6),
+    assumptions=['return values of removeFilter/removeListener/process are resynchronised, not asserted', 'listeners/filters are only added while no open dispatch is in its filter phase'],
+    technique='online differential monitor (filter chain + listener model) over a configuration product, g++ and clang++, ASan+UBSan',
+    level_text='Exploration: every filter and listener invocation of tens of thousands of generated dispatch histories is checked against the gate rules of the statement.',
+    level_note='Trusted: model of the filter chain, generator. One configuration (interceptor-less mixin listed before MixinFilter) is a recorded known finding.',
+)
+
 CHECKS['C13'] = dict(
     title='OrderedQueueList processes events in comparator order, stably, exactly once',
     level='exploration',
@@ -187,6 +220,35 @@ CHECKS['C13'] = dict(
     assumptions=['comparators used are strict weak orders'],
     technique='online next-callback-expectation monitor with ordered-pending model + trace-level monotonicity/stability oracle; ASan+UBSan',
     level_text='Exploration: as C05, on ordered queue lists, with heavy key duplication.',
+    level_note='Trusted: model, generator.',
+)
+
+CHECKS['C15'] = dict(
+    title='No listener added through a ScopedRemover outlives its remover',
+    level='exploration',
+    rule='pool of 3-5 ScopedRemover objects (some default-constructed) over 2 instances of CallbackList / EventDispatcher / EventQueue (6 configurations incl. SingleThreading); operations: add via '
+         'remover and directly, remove via remover and directly, reset, setDispatcher/setCallbackList (same and other instance), move-construct, move-assign into empty and non-empty removers, swap, '
+         'destroy in any order, some issued from inside callbacks; after every operation every target is triggered and the callbacks that run are compared with the model (responsibility sets, limbo groups '
+         'for what a move-assignment destination held: either resolution accepted until the deadline); non-trivial = >=1 move-assignment or swap between removers and >=1 remover destroyed while responsible '
+         'for an attached listener; distinct = trace hash',
+    jobs=[J('drv_remover', 'asan17', '', 60000, 2000000, shards=8, shards_thorough=16), J('drv_remover', 'clang-asan17', '', 20000, 600000, seed_offset=1, shards=8, shards_thorough=16)],
+    assumptions=['a moved-from remover has an unknown target until re-targeted', 'wrong-key / foreign-handle removals are not generated (documented preconditions)'],
+    technique='online differential monitor with responsibility model (M-remover), g++ and clang++, ASan+UBSan',
+    level_text='Exploration: hundreds of thousands of remover histories; every target is dispatched after every operation so an orphaned or prematurely detached listener shows at once.',
+    level_note='Trusted: model M-remover including the limbo rule, generator.',
+)
+
+CHECKS['C16'] = dict(
+    title='CounterRemover and ConditionalRemover detach listeners exactly when promised',
+    level='exploration',
+    rule='CounterRemover with n in [-3,6] and ConditionalRemover with scripted outcome sequences (conditions with and without arguments, evaluations counted) on CallbackList, EventDispatcher, EventQueue, '
+         'HeterCallbackList, HeterEventDispatcher; plain listeners around them added/removed during the history; triggers direct, queued and re-entrant from inside the wrapped listener (depth<=3); helper '
+         'object destroyed right after registration; every trigger carries a unique argument so calls and condition evaluations are attributed; non-trivial = >=1 wrapped listener reached its detachment '
+         'and >=1 later trigger of that list; distinct = trace hash',
+    jobs=[J('drv_autoremove', 'asan17', '', 20000, 700000, shards=8, shards_thorough=16), J('drv_autoremove', 'clang-asan17', '', 6000, 200000, seed_offset=1, shards=8, shards_thorough=16)],
+    assumptions=['explicit user removal of a wrapped listener is not generated (not covered by the statement)'],
+    technique='online differential monitor (counter / first-true state machine on top of the snapshot list model), g++ and clang++, ASan+UBSan',
+    level_text='Exploration over trigger counts, condition outcome sequences and re-entrant trigger shapes.',
     level_note='Trusted: model, generator.',
 )
 
